@@ -56,7 +56,10 @@ DATE_LAWS = [("todate|fromdate", "(todate | fromdate) == ."), ("gmtime|mktime", 
 VALUES = [None, True, False, 0, 1, -1, 2 ** 53, -(2 ** 63), 10 ** 20, 0.5, -2.25, 1e17, 1.25e-7,
           "\u0080", "x\u0080y", "\u007f\u0080\u07ff\u0800\uffff\U00010000\U0010ffff", "\u00ff", "\ud7ff\ue000", "", "a", "a,b", ",", ",,a,", "abab", "ab", "é", "aéb", "日本語", "\u0000", "a\"b\\c", "\n\t", "\u007f", " +%2B&=?/", "\U0001F600", "%", "a b", "=", "YQ==",
           [], [[]], [1, [2, [3]]], [None, False], {}, {"": 1}, {"a": {}}, {"a": [], "b": {"c": None}}, {"é": "x", "a\"b": 1, "\n": [1]}, {"a b": {"": {"k": [1, {"z": 2}]}}},
-          [{"a": 1}, {"b": [2, 3]}], {"a": [{"b": 1}, {"c": {"d": [1, 2]}}]}, [[], {}, [[]], [{}]], {"k": [0, {"z": 5}]}]
+          [{"a": 1}, {"b": [2, 3]}], {"a": [{"b": 1}, {"c": {"d": [1, 2]}}]}, [[], {}, [[]], [{}]], {"k": [0, {"z": 5}]},
+          # every class of character as an object KEY (keys are written by their own code path): C0 controls with and without a short escape, DEL, C1, line separators, non-printable astral, noncharacters
+          {"x\u0001": 1, "\u0007": 2, "\u000b": 3, "\u001f": 4, "\u007f": 5}, {"\b\f\n\r\t": 1, "\u0000": 2, "\u0080\u009f": 3}, {"\u2028\u2029": 1, "\U000e0001": 2, "\ufffe\uffff": 3, "\ufeff": 4},
+          {"\u00ad": 1, "\u200b": 2, "\u0301": 3, "/": 4, "<>&'": 5}, ["\u0001\u0007\u000b\u001f\u007f", "\u2028\U000e0001\ufffe"], {"k": {"\u0001": {"\u007f": ["\u000b"]}}}]
 
 
 def rand_deep(r, d=3):
@@ -71,12 +74,12 @@ def rand_deep(r, d=3):
         return "".join(r.choice(["a", "b", ",", " ", "é", "日", "\"", "\\", "\n", "\u0001", "%", "+", "=", "\U0001F600", "\u007f", "/", "\u0080", "\u07ff", "\u0800", "\uffff", "\U00010000", "\U0010ffff"]) for _ in range(r.randrange(6)))
     if k in (5, 6):
         return [rand_deep(r, d - 1) for _ in range(r.randrange(4))]
-    return {"".join(r.choice(["a", "b", "", "é", " ", "\"", "k", "\n"]) for _ in range(r.randrange(3))): rand_deep(r, d - 1) for _ in range(r.randrange(4))}
+    return {"".join(r.choice(["a", "b", "", "é", " ", "\"", "k", "\n", "\u0001", "\u007f", "\u000b", "\u2028", "\U000e0001", "\\", "\u0000"]) for _ in range(r.randrange(3))): rand_deep(r, d - 1) for _ in range(r.randrange(4))}
 
 
 def run(tier, seed, replay):
     rep = vc.Report(PROP, tier, seed)
-    rep.assumptions += ["@base64/@uri/tojson codecs and strftime/strptime are not (yet) modelled in this check's specification: their laws are decided on the real code alone",
+    rep.assumptions += ["results that are not valid UTF-8 (@base64d of arbitrary bytes) are outside the value model",
                         "dates: whole seconds within years 1..9999"]
     vh, _ = vc.build()
     work = vc.Work(PROP)
